@@ -514,9 +514,20 @@ def seq_case(rep, rng, lines, expect):
     replay = {'kind': 'seq', 'frames': render(frames), 'ending': ending, 'eager': sc.eager, 'tags': tags}
     try:
         try:
-            m = sc.ch.basic.get('q')
+            variant = rng.choice([{}, {}, {'to_dict': True}, {'auto_decode': False}, {'no_ack': True}, {'to_dict': True, 'no_ack': True}])
+            replay['variant'] = variant
+            m = sc.ch.basic.get('q', **variant)
             if m is None:
                 res = 'none'
+            elif variant.get('to_dict'):
+                # the documented dict form; the same message whatever its body is (also an empty one)
+                if not isinstance(m, dict) or not {'body', 'method', 'properties'} <= set(m):
+                    rep.violation('C15/to-dict-form', 'basic.get(to_dict=True) returned %s instead of the dict form (body, method, properties, channel)'
+                                  % (type(m).__name__,), replay)
+                    m = types.SimpleNamespace(method=m.method, _body=m._body, properties=m.properties, _properties=m._properties)
+                else:
+                    m = types.SimpleNamespace(method=m['method'], _body=m['body'], properties=m['properties'], _properties=m['properties'])
+                res = 'message meta=%08x size=%d body=%s' % (m.method['delivery_tag'], len(m._body), show_slice(m._body))
             else:
                 res = 'message meta=%08x size=%d body=%s' % (m.method['delivery_tag'], len(m._body), show_slice(m._body))
         except amqpstorm.AMQPMessageError as why:
